@@ -237,6 +237,11 @@ BestMatchL(p, a, b, lb) ==
          IN IF c > 0 THEN <<a>> ELSE IF c < 0 THEN <<b>>
             ELSE IF LexCmp(Encode(a), Encode(b)) < 0 THEN <<a>> ELSE <<b>>
 
+\* best_match of a candidate with itself is the membership test by another route: Some(n)
+\* exactly when n matches (MC_PatEnum checks BestMatchL(p, n, n, lb) = BestSelfL(p, n, lb) on every
+\* pattern and name of its domain; the conformance steps ask the code for both)
+BestSelfL(p, n, lb) == IF MatchL(p, n, lb) THEN <<n>> ELSE <<>>
+
 \* the property, for a finite set of candidates: none if nothing matches, else the
 \* matching candidates that no other matching candidate beats
 BestSetL(p, S, lb) ==
